@@ -742,7 +742,6 @@ impl<'a> NtpPacket<'a> {
                         .authenticated
                         .iter()
                         .chain(input.efdata.encrypted.iter())
-                        .take(MAX_COOKIES)
                         .filter_map(|f| match f {
                             ExtensionField::NtsCookiePlaceholder { cookie_length } => {
                                 let new_cookie = keyset.encode_cookie(cookie);
@@ -762,6 +761,7 @@ impl<'a> NtpPacket<'a> {
                             }
                             _ => None,
                         })
+                        .take(MAX_COOKIES)
                         .collect(),
                     authenticated: input
                         .efdata
@@ -787,7 +787,6 @@ impl<'a> NtpPacket<'a> {
                         .authenticated
                         .iter()
                         .chain(input.efdata.encrypted.iter())
-                        .take(MAX_COOKIES)
                         .filter_map(|f| match f {
                             ExtensionField::NtsCookiePlaceholder { cookie_length } => {
                                 let new_cookie = keyset.encode_cookie(cookie);
@@ -807,6 +806,7 @@ impl<'a> NtpPacket<'a> {
                             }
                             _ => None,
                         })
+                        .take(MAX_COOKIES)
                         .collect(),
                     authenticated: input
                         .efdata
